@@ -147,7 +147,7 @@ def _leaves(v):
     return [], False
 
 
-def eval_depth_sort(prog, body):
+def eval_depth_sort(prog, body, modes=("FrontToBack", "BackToFront"), mode_arg=True):
     """Spec: the order depth_sort imposes on two triangles t, u is, for FrontToBack,
     the order of their depth keys and for BackToFront the reverse — for every
     combination of key signs (a key built from bit patterns or magnitudes orders
@@ -190,7 +190,7 @@ def eval_depth_sort(prog, body):
             cases.append((st, su, rel))
     table = {}
     bad = []
-    for mode in ("FrontToBack", "BackToFront"):
+    for mode in modes:
         for (st, su, rel) in cases:
             sign = {"t": st, "u": su}
 
@@ -271,7 +271,7 @@ def eval_depth_sort(prog, body):
                                                      "sort_unstable_by": m_sort, "sort_by": m_sort, "f32>::to_bits": m_to_bits})
             d = ("adt", "retrofire_core::render::ctx::DepthSort", mode, [])
             try:
-                it.call_body(body, [A.UNKNOWN, d])
+                it.call_body(body, [A.UNKNOWN, d] if mode_arg else [A.UNKNOWN])
             except A.Undecided as e:
                 raise common.Infra("C06.W7: depth_sort ordering could not be evaluated abstractly (%s)" % e)
             if len(got) != 1 or got[0] not in ("Less", "Equal", "Greater"):
